@@ -373,7 +373,10 @@ func universes(thorough bool) []*universe {
 	// a controller started with --lb-class: every Service carries that class (Services of another class are not its business;
 	// the deletion of one of its own Services still is)
 	lc := mkUniverse("lbclass", ns12[:1], [][]metallbv1beta1.IPAddressPool{{mkPool("a", []string{"10.0.0.0/32"}, nil)}, restartLayouts[2]}, slots3[:2],
-		[]namedVariant{{"p80-class-x", mkSvc(lbClass("x"))}, {"p443-k1-class-x", mkSvc(ports(443), share("k1"), lbClass("x"))}, {"p8080-k1-class-x", mkSvc(ports(8080), share("k1"), lbClass("x"))}}, nil)
+		[]namedVariant{{"p80-class-x", mkSvc(lbClass("x"))}, {"p443-k1-class-x", mkSvc(ports(443), share("k1"), lbClass("x"))}, {"p8080-k1-class-x", mkSvc(ports(8080), share("k1"), lbClass("x"))},
+			// the type stops being LoadBalancer: the API server drops spec.loadBalancerClass together with the type-dependent
+			// fields (dropTypeDependentFields) and wipes status.loadBalancer - the object no longer carries the class
+			{"p80-clusterip-classdropped-statuswiped", mkSvc(clusterIPType())}}, nil)
 	lc.LBClass = "x"
 	us = append(us, lc)
 
